@@ -74,6 +74,58 @@ def u_path(h, penalty, X, fit_intercept, with_init, sparse=False):
         h.ensure('grid-point-1-starts-from-0[%d]' % k, h.eq(coefs[k, 1], coefs[k, 0]))
 
 
+def u_warm_refit(h, kind, fi1, fi2):
+    """refit of a warm_start estimator after changing hyper-parameters (fit_intercept fi1 -> fi2, alpha): the start
+    point handed to the solver is the previous solution and its model-fit buffer is consistent with it"""
+    import skglm
+    from checks import estim as ES
+    n, p = 3, 2
+    X = h.mat('X', n, p)
+    A1, A2 = h.real('alpha1'), h.real('alpha2')
+    h.assume(A1 > 0, A2 > 0)
+    rets = []
+
+    def result(k, call):
+        nw = p + (1 if call['solver'].fit_intercept else 0)
+        r = ES.sym_result(h, nw, tag='c%d_' % k)
+        rets.append(r)
+        return r
+    if kind == 'SparseLogisticRegression':
+        y = np.array(['a', 'b', 'a'])
+        est = skglm.SparseLogisticRegression(alpha=A1, fit_intercept=fi1, warm_start=True)
+    else:
+        from skglm.datafits import Logistic
+        from skglm.penalties import L1
+        from skglm.solvers import AndersonCD
+        y = np.array([0, 1, 0])
+        est = skglm.GeneralizedLinearEstimator(Logistic(), L1(A1), AndersonCD(fit_intercept=fi1, warm_start=True))
+    with ES.sklearn_stubs(h):
+        with ES.intercept_solve(h, result) as cap:
+            est.fit(X, y)
+            if kind == 'SparseLogisticRegression':
+                est.alpha = A2
+                est.fit_intercept = fi2
+            else:
+                est.penalty.alpha = A2
+                est.solver.fit_intercept = fi2
+            est.fit(X, y)
+    h.ensure('two-solves', len(cap.calls) == 2)
+    c2 = cap.calls[1]
+    prev = rets[0][0]
+    w2, Xw2 = c2['w_init'], c2['Xw_init']
+    h.observe('w0', w2[0])
+    h.ensure('start-length', len(w2) == p + (1 if fi2 else 0))
+    ok = h.true()
+    for j in range(p):
+        ok = h.and_(ok, h.eq(w2[j], prev[j]))
+    h.ensure('starts-from-previous-coefficients', ok)
+    b2 = w2[p] if fi2 else 0.0
+    cons = h.true()
+    for i in range(n):
+        cons = h.and_(cons, h.eq(Xw2[i], sum(X[i, j] * w2[j] for j in range(p)) + b2))
+    h.ensure('start-model-fit-consistent', cons)
+
+
 def units(tier):
     us = []
     q = tier == 'quick'
@@ -137,6 +189,10 @@ def units(tier):
     for fi in (False, True):
         us.append(Unit('C05/S/group_pn_linesearch[intercept=%s]' % fi, ST.u_pn_linesearch,
                        dict(X='corr32', fit_intercept=fi, group=True), wall_s=120, timeout_ms=8000, patched=True))
+    for kind in ('SparseLogisticRegression', 'GeneralizedLinearEstimator'):
+        for fi1, fi2 in ((True, False), (False, True), (True, True), (False, False)):
+            us.append(Unit('C05/E/warm-refit[%s,fit_intercept=%s->%s]' % (kind, fi1, fi2), u_warm_refit,
+                           dict(kind=kind, fi1=fi1, fi2=fi2), wall_s=60))
     return us
 
 
